@@ -239,7 +239,7 @@ def build(spec, env):
         if neg: n = -n
         fns = [('mpz_cdiv_q_ui', 'q', 'c'), ('mpz_cdiv_r_ui', 'r', 'c'), ('mpz_cdiv_qr_ui', 'qr', 'c'), ('mpz_cdiv_ui', '', 'c'),
                ('mpz_fdiv_q_ui', 'q', 'f'), ('mpz_fdiv_r_ui', 'r', 'f'), ('mpz_fdiv_qr_ui', 'qr', 'f'), ('mpz_fdiv_ui', '', 'f'),
-               ('mpz_tdiv_q_ui', 'q', 't'), ('mpz_tdiv_r_ui', 'r', 't'), ('mpz_tdiv_qr_ui', 'qr', 't'), ('mpz_tdiv_ui', '', 't')]
+               ('mpz_tdiv_q_ui', 'q', 't'), ('mpz_tdiv_r_ui', 'r', 't'), ('mpz_tdiv_qr_ui', 'qr', 't'), ('mpz_tdiv_ui', '', 't'), ('mpz_mod_ui', 'r', 'f')]
         cmds = ['z Z1 %s' % hx(n)]
         for fn, what, m in fns:
             out = {'q': 'Z3 ', 'r': 'Z3 ', 'qr': 'Z3 Z4 ', '': ''}[what]
